@@ -938,3 +938,282 @@ Proof.
       assert (NR (1000 ^ 7) = 1000000000000000000000) as P' by (unfold NR; simpl; reflexivity).
       lra.
 Qed.
+
+(* ------------------------------------------------------------------ the value *)
+Lemma NR_pow b (k : nat) : NR (b ^ N.of_nat k) = NR b ^ k.
+Proof.
+  induction k as [|k IH]; [reflexivity|].
+  rewrite Nat2N.inj_succ, N.pow_succ_r', NR_mul, IH. reflexivity.
+Qed.
+
+(** division by 1024 is exact (no underflow: the amounts are >= 1024) *)
+Lemma AR_exact_1024 j x :
+  fmt x -> (forall i, (i < j)%nat -> 1024 <= AR i x 1024) -> AR j x 1024 = x / 1024 ^ j.
+Proof.
+  revert x. induction j as [|j IH]; intros x Fx C; [cbn [AR pow]; field|].
+  pose proof (C 0%nat ltac:(lia)) as C0. cbn [AR] in C0.
+  assert (RN (x / 1024) = x / 1024) as E.
+  { apply RN_id. replace (x / 1024) with (x * bpow radix2 (-10)) by (simpl; lra).
+    apply mult_bpow_exact_FLT; [exact Fx|].
+    assert (11 <= mag radix2 x)%Z.
+    { apply mag_ge_bpow. rewrite Rabs_pos_eq by lra. simpl. lra. }
+    lia. }
+  cbn [AR pow]. rewrite E. rewrite IH.
+  - field. apply pow_nonzero. lra.
+  - rewrite <- E. apply RN_fmt.
+  - intros i Hi. specialize (C (S i) ltac:(lia)). cbn [AR] in C. rewrite E in C. exact C.
+Qed.
+
+(** k rounded divisions: within (1 +- 2^-53)^k of the exact quotient *)
+Lemma AR_sandwich j x K :
+  1 <= K -> (forall i, (i < j)%nat -> K <= AR i x K) ->
+  (1 - u53) ^ j * (x / K ^ j) <= AR j x K <= (1 + u53) ^ j * (x / K ^ j).
+Proof.
+  intros HK. revert x. induction j as [|j IH]; intros x C; [cbn [AR pow]; lra|].
+  pose proof (C 0%nat ltac:(lia)) as C0. cbn [AR] in C0.
+  pose proof u53_bounds as UB.
+  assert (0 < / K) as IK by (apply Rinv_0_lt_compat; lra).
+  assert (1 <= x / K) as Q1.
+  { unfold Rdiv. apply Rmult_le_reg_r with K; [lra|]. rewrite Rmult_assoc, Rinv_l by lra. lra. }
+  assert (x / K = 0 \/ bpow radix2 (-1022) <= x / K) as HQ by (right; apply tiny_le; lra).
+  pose proof (RN_rel_bounds (x / K) HQ) as [R1 R2].
+  specialize (IH (RN (x / K))). destruct IH as [I1 I2].
+  { intros i Hi. specialize (C (S i) ltac:(lia)). exact C. }
+  cbn [AR].
+  assert (0 < K ^ j) as PK by (apply pow_lt; lra).
+  assert (0 < / K ^ j) as IPK by (apply Rinv_0_lt_compat; exact PK).
+  assert (0 <= (1 - u53) ^ j) as P1 by (apply pow_le; lra).
+  assert (0 <= (1 + u53) ^ j) as P2 by (apply pow_le; lra).
+  split.
+  - apply Rle_trans with (2 := I1). cbn [pow].
+    replace ((1 - u53) * (1 - u53) ^ j * (x / (K * K ^ j)))
+      with ((1 - u53) ^ j * (((1 - u53) * (x / K)) / K ^ j)) by (field; lra).
+    apply Rmult_le_compat_l; [exact P1|]. unfold Rdiv at 1 3. apply Rmult_le_compat_r; lra.
+  - apply Rle_trans with (1 := I2). cbn [pow].
+    replace ((1 + u53) * (1 + u53) ^ j * (x / (K * K ^ j)))
+      with ((1 + u53) ^ j * (((1 + u53) * (x / K)) / K ^ j)) by (field; lra).
+    apply Rmult_le_compat_l; [exact P2|]. unfold Rdiv at 1 3. apply Rmult_le_compat_r; lra.
+Qed.
+
+Lemma pow_u53_bounds j : (j <= 6)%nat -> 1 - 7 * u53 <= (1 - u53) ^ j /\ (1 + u53) ^ j <= 1 + 7 * u53.
+Proof.
+  intros H. rewrite u53_val.
+  do 7 (destruct j as [|j]; [cbn [pow]; lra|]). lia.
+Qed.
+
+(* ------------------------------------------------------------------ the printed digits *)
+(** [scaled m e p] is the value m 2^e 10^p rounded to the nearest integer, ties to even *)
+Lemma scaled_R m e p :
+  let W := IZR (Zpos m) * bpow radix2 e * NR (10 ^ p) in
+  let q := scaled m e p in
+  Rabs (NR q - W) <= / 2 /\ ((NR q - W = / 2 \/ W - NR q = / 2) -> N.even q = true).
+Proof.
+  intros W q. pose proof (scaled_spec m e p) as S. cbv zeta in S. fold q in S.
+  assert (IZR (Zpos m) = NR (Npos m)) as Em by reflexivity.
+  destruct e as [|k|k].
+  - assert (NR q = W) as E.
+    { unfold W. rewrite S, NR_mul, Em. simpl (bpow radix2 0). ring. }
+    rewrite E. replace (W - W) with 0 by ring. rewrite Rabs_R0. split; [lra|]. intros [H|H]; lra.
+  - assert (NR q = W) as E.
+    { unfold W. rewrite S, !NR_mul, Em. rewrite <- IZR_Zpower by lia.
+      replace (NR (2 ^ N.pos k)) with (IZR (radix2 ^ Z.pos k)); [ring|].
+      unfold NR. f_equal. rewrite N2Z.inj_pow. reflexivity. }
+    rewrite E. replace (W - W) with 0 by ring. rewrite Rabs_R0. split; [lra|]. intros [H|H]; lra.
+  - destruct S as (S1 & S2 & S3).
+    set (b := (2 ^ N.pos k)%N) in *. set (a := (N.pos m * 10 ^ p)%N) in *.
+    assert (0 < NR b) as Bp.
+    { apply (IZR_lt 0). unfold b. pose proof (N.pow_nonzero 2 (N.pos k) ltac:(discriminate)). lia. }
+    assert (bpow radix2 (Z.neg k) = / NR b) as Eb.
+    { change (Z.neg k) with (- Z.pos k)%Z. rewrite bpow_opp. f_equal.
+      rewrite <- IZR_Zpower by lia. unfold NR, b. f_equal. rewrite N2Z.inj_pow. reflexivity. }
+    assert (W = NR a / NR b) as EW.
+    { unfold W, a. rewrite Eb, NR_mul, Em. field. lra. }
+    apply NR_le in S1. apply NR_le in S2.
+    rewrite ?NR_add, ?NR_mul in S1, S2. change (NR 2) with 2 in S1, S2.
+    assert (0 < / NR b) as IB by (apply Rinv_0_lt_compat; exact Bp).
+    assert (NR q - W = (NR q * NR b - NR a) * / NR b) as D by (rewrite EW; field; lra).
+    assert ((NR b / 2) * / NR b = / 2) as H2 by (field; lra).
+    split.
+    + rewrite D. apply Rabs_le. split.
+      * replace (- / 2) with ((- (NR b / 2)) * / NR b) by (rewrite <- H2; ring).
+        apply Rmult_le_compat_r; lra.
+      * rewrite <- H2. apply Rmult_le_compat_r; lra.
+    + intros T. apply S3.
+      assert (forall y, y * / NR b = / 2 -> y = NR b / 2) as INV.
+      { intros y Hy. apply Rmult_eq_reg_r with (/ NR b); [|lra]. rewrite Hy, H2. reflexivity. }
+      destruct T as [T|T].
+      * left. rewrite D in T. apply INV in T.
+        assert (NR (2 * (q * b)) = NR (2 * a + b)) as E
+          by (rewrite ?NR_add, ?NR_mul; change (NR 2) with 2; lra).
+        apply eq_IZR in E. lia.
+      * right. assert ((NR a - NR q * NR b) * / NR b = / 2) as T' by (rewrite <- T, EW; field; lra).
+        apply INV in T'.
+        assert (NR (2 * a) = NR (2 * (q * b) + b)) as E
+          by (rewrite ?NR_add, ?NR_mul; change (NR 2) with 2; lra).
+        apply eq_IZR in E. lia.
+Qed.
+
+(** a finite positive binary64 datum is printed through [scaled] of its mantissa / exponent *)
+Lemma B2SF_pos (v : f64) : is_finite v = true -> 0 < B2R v ->
+  exists m e, B2SF v = S754_finite false m e /\ B2R v = IZR (Zpos m) * bpow radix2 e.
+Proof.
+  intros Fv Pv. destruct v as [s|s| |s m e He]; try discriminate Fv.
+  - cbn [B2R] in Pv. lra.
+  - destruct s.
+    + exfalso. assert (B2R (B754_finite true m e He) < 0) as L
+        by (cbn [B2R]; apply F2R_lt_0; simpl; reflexivity). lra.
+    + exists m, e. split; [reflexivity|]. cbn [B2R]. unfold F2R. reflexivity.
+Qed.
+
+(* ------------------------------------------------------------------ assembling the output *)
+Lemma NR_le_inv a b : NR a <= NR b -> (a <= b)%N.
+Proof. intros H. apply le_IZR in H. lia. Qed.
+Lemma NR_lt_inv a b : NR a < NR b -> (a < b)%N.
+Proof. intros H. apply lt_IZR in H. lia. Qed.
+Lemma NR_eq_inv a b : NR a = NR b -> a = b.
+Proof. intros H. apply eq_IZR in H. lia. Qed.
+
+(** plain bytes: below the base the amount is n itself and [{:.0}] prints the numeral of n *)
+Lemma fmt_fixed0_small n : (n < 1024)%N -> fmt_fixed 0 (B2SF (f64_of_N n)) = dec n.
+Proof.
+  intros Hn. destruct (f64_of_N_exact n) as (E & F); [lia|].
+  destruct (N.eq_dec n 0) as [->|NZ]; [vm_compute; reflexivity|].
+  assert (0 < B2R (f64_of_N n)) as P by (rewrite E; apply (IZR_lt 0); lia).
+  destruct (B2SF_pos _ F P) as (m & e & S1 & S2). rewrite S1. cbn [fmt_fixed sign_str app].
+  destruct (scaled_R m e 0) as (Q & _). rewrite <- S2, E in Q.
+  change (NR (10 ^ 0)) with 1 in Q. rewrite Rmult_1_r in Q.
+  assert (scaled m e 0 = n) as ->.
+  { unfold NR in Q. rewrite <- minus_IZR in Q. apply Rabs_le_inv in Q.
+    assert (IZR (-1) < IZR (Z.of_N (scaled m e 0) - Z.of_N n) < IZR 1) as [A B] by (simpl; lra).
+    apply lt_IZR in A. apply lt_IZR in B. lia. }
+  rewrite fixed_digits_spec. change (10 ^ 0)%N with 1%N. rewrite N.div_1_r. cbn [N.eqb]. apply app_nil_r.
+Qed.
+
+Lemma sym_lookup (binary : bool) (k : nat) : (1 <= k <= 6)%nat ->
+  nth_error (if binary then SYM_BINARY else SYM_DECIMAL) (N.to_nat (N.of_nat k - 1)%N) = Some (bytes_sym binary k).
+Proof.
+  intros H. destruct binary; do 7 (destruct k as [|k]; [try lia; try reflexivity|]); lia.
+Qed.
+
+(** HumanBytes / BinaryBytes (binary = true) and DecimalBytes (binary = false) for every u64:
+    the value x = n as f64, k = the largest fitting prefix of x (exactly), k <= 6; plain bytes
+    print the whole number n; otherwise "<q/100 with two decimals> <prefix>B" where q is
+    x / base^k in hundredths rounded to nearest - exactly (ties to even) for 1024, up to
+    2^-32 of a hundredth for 1000 (k rounded divisions) *)
+Theorem bytes_shape binary n : (n <= U64MAX)%N ->
+  let b := bytes_base binary in
+  let x := bytes_x n in
+  exists (k : nat) (q : N),
+    (k <= 6)%nat
+    /\ (k = 0%nat \/ b ^ N.of_nat k <= x)%N /\ (x < b ^ (N.of_nat k + 1))%N
+    /\ bytes_fmt binary n =
+         Ok (if (k =? 0)%nat then dec n ++ str " B"
+             else fixed_digits 2 q ++ [CH_SP] ++ str (bytes_sym binary k) ++ str "B")
+    /\ (k = 0%nat -> x = n)
+    /\ ((0 < k)%nat -> hundredths_approx q x (b ^ N.of_nat k) /\ (100 <= q <= 100 * b)%N)
+    /\ ((0 < k)%nat -> binary = true -> hundredths_exact q x (b ^ N.of_nat k)).
+Proof.
+  intros Hn b x.
+  destruct (prefix_exact binary n Hn) as (k & E & K6 & Lo & Hi & C). cbv zeta in E, Lo, Hi, C.
+  pose proof (bytes_x_correct n Hn) as EX. fold x in EX. rewrite <- EX in Lo, Hi, C.
+  fold b in Lo, Hi.
+  destruct (kilo_correct binary) as (K1 & K2 & K3).
+  destruct (f64_of_N_correct n Hn) as (M1 & M2 & M3). rewrite <- EX in M1.
+  assert (bytes_fmt binary n =
+          if (N.of_nat k =? 0)%N then Ok (fmt_fixed 0 (B2SF (div_iter k (f64_of_N n) (kilo_of binary))) ++ str " B")
+          else match nth_error (if binary then SYM_BINARY else SYM_DECIMAL) (N.to_nat (N.of_nat k - 1)%N) with
+               | None => Panic 5
+               | Some sym => Ok (fmt_fixed 2 (B2SF (div_iter k (f64_of_N n) (kilo_of binary))) ++ [CH_SP] ++ str sym ++ str "B")
+               end) as BF.
+  { unfold bytes_fmt, number_prefix. rewrite M3.
+    change (f64_of_N (if binary then 1024%N else 1000%N)) with (kilo_of binary). rewrite E. reflexivity. }
+  destruct k as [|k'].
+  - (* plain bytes *)
+    exists 0%nat, 0%N. change (N.of_nat 0 + 1)%N with 1%N in Hi. rewrite N.pow_1_r in Hi.
+    apply NR_lt_inv in Hi.
+    assert (n < b)%N as Nb.
+    { destruct (N.lt_ge_cases n b) as [L|L]; [exact L|exfalso].
+      assert (NR b <= NR x) as A.
+      { rewrite EX. apply RN_ge_fmt; [apply fmt_NR; subst b; destruct binary; cbn; lia|apply NR_le, L]. }
+      apply NR_le_inv in A. lia. }
+    assert (n < 1024)%N as N1024 by (subst b; destruct binary; cbn in Nb; lia).
+    assert (x = n) as Exn.
+    { apply NR_eq_inv. rewrite EX. apply RN_id, fmt_NR. lia. }
+    split; [lia|]. split; [left; reflexivity|]. split; [rewrite N.pow_1_r; exact Hi|].
+    split; [|split; [intros _; exact Exn|split; intros; lia]].
+    rewrite BF. cbn [N.of_nat N.eqb div_iter Nat.eqb]. rewrite (fmt_fixed0_small n N1024). reflexivity.
+  - (* a prefix *)
+    set (k := S k') in *. destruct Lo as [Lo|Lo]; [discriminate Lo|].
+    assert (0 <= NR x <= bpow radix2 65) as XB by (rewrite EX; apply X_bounds, Hn).
+    destruct (div_iter_correct k (f64_of_N n) (kilo_of binary) M2 K2) as (D1 & D2);
+      [rewrite K1; lra|rewrite M1; exact XB|].
+    rewrite M1, K1 in D1.
+    set (K := KR binary) in *. set (X := NR x) in *. set (v := div_iter k (f64_of_N n) (kilo_of binary)) in *.
+    assert (NR (b ^ N.of_nat k) = K ^ k) as EP by (apply NR_pow).
+    assert (NR (b ^ (N.of_nat k + 1)) = K * K ^ k) as EP1.
+    { rewrite N.add_1_r, N.pow_succ_r', NR_mul, EP. reflexivity. }
+    rewrite EP in Lo. rewrite EP1 in Hi.
+    assert (0 < K ^ k) as PK by (apply pow_lt; lra).
+    set (P := K ^ k) in *. set (Y := X / P).
+    assert (Y * P = X) as YP by (unfold Y; field; lra).
+    assert (1 <= Y) as Y1.
+    { unfold Y, Rdiv. apply Rmult_le_reg_r with P; [exact PK|]. rewrite Rmult_assoc, Rinv_l by lra. lra. }
+    assert (Y < K) as YK.
+    { unfold Y, Rdiv. apply Rmult_lt_reg_r with P; [exact PK|]. rewrite Rmult_assoc, Rinv_l by lra. lra. }
+    destruct (AR_sandwich k X K ltac:(lra) C) as [S1 S2]. fold P in S1, S2. fold Y in S1, S2.
+    destruct (pow_u53_bounds k K6) as [U1 U2]. pose proof u53_bounds as UB.
+    assert ((1 - 7 * u53) * Y <= B2R v <= (1 + 7 * u53) * Y) as SV.
+    { rewrite D1. split.
+      - apply Rle_trans with (2 := S1). apply Rmult_le_compat_r; lra.
+      - apply Rle_trans with (1 := S2). apply Rmult_le_compat_r; lra. }
+    assert (0 < B2R v) as Pv by (rewrite u53_val in SV; lra).
+    destruct (B2SF_pos v D2 Pv) as (m & e & F1 & F2).
+    destruct (scaled_R m e 2) as (Q1 & Q2). rewrite <- F2 in Q1, Q2.
+    change (NR (10 ^ 2)) with 100 in Q1, Q2.
+    set (q := scaled m e 2) in *.
+    exists k, q. split; [exact K6|].
+    split; [right; apply NR_le_inv; rewrite EP; exact Lo|].
+    split; [apply NR_lt_inv; rewrite EP1; exact Hi|].
+    split.
+    { rewrite BF. change (N.of_nat k =? 0)%N with false. cbv iota.
+      rewrite (sym_lookup binary k ltac:(lia)). rewrite F1. reflexivity. }
+    split; [intros H; discriminate H|].
+    apply Rabs_le_inv in Q1.
+    assert (- (/ 2 + / 4294967296) <= NR q - 100 * Y <= / 2 + / 4294967296) as QA.
+    { rewrite u53_val in SV. lra. }
+    split; [|].
+    + intros _. split.
+      * (* within 2^-32 of a hundredth *)
+        destruct QA as [QA1 QA2].
+        apply (Rmult_le_compat_r P) in QA1; [|lra]. apply (Rmult_le_compat_r P) in QA2; [|lra].
+        replace ((NR q - 100 * Y) * P) with (NR q * P - 100 * X) in QA1, QA2 by (rewrite <- YP; ring).
+        unfold hundredths_approx. split; apply NR_le_inv;
+          rewrite ?NR_add, ?NR_mul, EP; fold P; fold X;
+          change (NR (2 ^ 32)) with 4294967296; change (NR (2 ^ 31 + 1)) with 2147483649; change (NR 100) with 100; lra.
+      * assert (NR 99 < NR q) as A by (change (NR 99) with 99; lra).
+        assert (NR q < NR (100 * b + 1)) as B.
+        { rewrite NR_add, NR_mul. change (NR 100) with 100. change (NR 1) with 1. change (NR b) with K. lra. }
+        apply NR_lt_inv in A. apply NR_lt_inv in B. lia.
+    + (* 1024: every division is exact *)
+      intros _ Hb. subst binary.
+      assert (K = 1024) as EK by (unfold K, KR, bytes_base, NR; simpl; lra).
+      assert (B2R v = Y) as EV.
+      { rewrite D1. unfold Y, P. rewrite EK. apply AR_exact_1024.
+        - unfold X. rewrite EX. apply RN_fmt.
+        - intros i Hi'. rewrite <- EK. apply C, Hi'. }
+      rewrite EV in Q1, Q2. destruct Q1 as [QA1 QA2].
+      apply (Rmult_le_compat_r P) in QA1; [|lra]. apply (Rmult_le_compat_r P) in QA2; [|lra].
+      replace ((NR q - Y * 100) * P) with (NR q * P - 100 * X) in QA1, QA2 by (rewrite <- YP; ring).
+      unfold hundredths_exact. split; [|split].
+      * apply NR_le_inv. rewrite ?NR_add, ?NR_mul, EP. fold P; fold X.
+        change (NR 2) with 2; change (NR 200) with 200. lra.
+      * apply NR_le_inv. rewrite ?NR_add, ?NR_mul, EP. fold P; fold X.
+        change (NR 2) with 2; change (NR 200) with 200. lra.
+      * intros T. apply Q2.
+        assert (forall y, y * P = P / 2 -> y = / 2) as INV.
+        { intros y Hy. apply Rmult_eq_reg_r with P; [|lra]. rewrite Hy. field. }
+        destruct T as [T|T]; apply (f_equal NR) in T; rewrite ?NR_add, ?NR_mul, EP in T;
+          fold P in T; fold X in T; change (NR 2) with 2 in T; change (NR 200) with 200 in T.
+        -- left. apply INV. rewrite <- YP in T. lra.
+        -- right. apply INV. rewrite <- YP in T. lra.
+Qed.
